@@ -26,6 +26,8 @@ type ysched struct {
 	parks  int
 	skips  int
 	wake   chan struct{} // optional: poked when a goroutine parks (world.step sleeps on it)
+	// optional fault: a parked goroutine is left where it is for 1..stallMaxMs virtual milliseconds
+	stallPct, stallMaxMs, stalls int
 }
 
 func newYsched(locks []lockProbe) *ysched {
@@ -214,8 +216,9 @@ func (y *ysched) drain(sched *prng) (resumed int) {
 	last := -1
 	for resumed < 20000 {
 		var runnable []int
+		now := time.Now()
 		for i, t := range y.order {
-			if t.parked {
+			if t.parked && !now.Before(t.stalledUntil) {
 				runnable = append(runnable, i)
 			}
 		}
@@ -223,6 +226,24 @@ func (y *ysched) drain(sched *prng) (resumed int) {
 			return resumed
 		}
 		pick := runnable[sched.intn(len(runnable))]
+		if y.stallPct > 0 && sched.chance(y.stallPct) {
+			// a stalled goroutine (descheduled, a pause): it stays where it is for some virtual milliseconds
+			// while the rest of the world, the network included, moves on
+			t := y.order[pick]
+			d := time.Duration(1+sched.intn(y.stallMaxMs)) * time.Millisecond
+			t.stalledUntil = now.Add(d)
+			y.stalls++
+			if y.wake != nil {
+				wake := y.wake
+				time.AfterFunc(d, func() {
+					select {
+					case wake <- struct{}{}:
+					default:
+					}
+				})
+			}
+			continue
+		}
 		if last >= 0 && sched.chance(40) {
 			for _, r := range runnable {
 				if r == last {
